@@ -240,6 +240,6 @@ def long_case(draw):
 
 def parts():
     return [
-        Part("histories", check, strategy=case_st(), budget={"quick": 2000, "thorough": 60000}),
-        Part("long_series", check, strategy=long_case(), budget={"quick": 120, "thorough": 4000}),
+        Part("histories", hs.with_epoch(check), strategy=hs.plus_epoch(case_st()), budget={"quick": 2000, "thorough": 60000}),
+        Part("long_series", hs.with_epoch(check), strategy=hs.plus_epoch(long_case()), budget={"quick": 120, "thorough": 4000}),
     ]
